@@ -227,7 +227,15 @@ func c07run(e *c07entry, in []byte) (viol string, detail string) {
 }
 
 // depth grid documents
-func c07deep(shape string, depth int, closed bool) []byte {
+// c07leaves: what sits at the innermost level of a boundary-depth document: one leaf per
+// scanner path (fast / big-decimal float, integer overflow, plain / escaped string, literals,
+// empty and non-empty containers, a second element)
+var c07leaves = []string{"1", "-0", "1.5", "1.00000000000000011102230246251565404236316680908203125", "123456789012345678901234567890", "1e400", `""`, `"s\n\u00e9"`, "null", "true",
+	"{}", "[]", `{"a":1}`, "[1,2]", "1,2", `"k":1`}
+
+func c07deep(shape string, depth int, closed bool) []byte { return c07deepLeaf(shape, depth, closed, "1") }
+
+func c07deepLeaf(shape string, depth int, closed bool, leaf string) []byte {
 	var open, cl string
 	switch shape {
 	case "array":
@@ -243,7 +251,7 @@ func c07deep(shape string, depth int, closed bool) []byte {
 		b.WriteString(open)
 	}
 	if closed {
-		b.WriteString("1")
+		b.WriteString(leaf)
 		for i := 0; i < depth; i++ {
 			b.WriteString(cl)
 		}
@@ -334,13 +342,16 @@ func init() {
 		return ev.Violation{Property: "C07", Key: key, What: "an input makes an entry point " + class,
 			Case: ev.J(cs), Expected: "an ordinary, usable error value or success", Observed: detail}
 	}
-	runDepth := func(c *ev.Ctx, r *ev.Report, shape string, depth int, closed bool, e *c07entry) {
+	runDepth := func(c *ev.Ctx, r *ev.Report, shape string, depth int, closed bool, leaf int, e *c07entry) {
 		spec := fmt.Sprintf("%s/%d/%v", shape, depth, closed)
+		if leaf > 0 {
+			spec += fmt.Sprintf("/%d", leaf)
+		}
 		cs := c07case{Kind: "depth", Entry: e.name, Spec: spec}
 		c.SetCase(string(ev.J(cs)))
 		r.Evaluations++
 		t0 := time.Now()
-		if v, d := c07run(e, c07deep(shape, depth, closed)); v != "" {
+		if v, d := c07run(e, c07deepLeaf(shape, depth, closed, c07leaves[leaf])); v != "" {
 			cls := "<=4096"
 			if depth > 4096 {
 				cls = ">4096"
@@ -352,7 +363,7 @@ func init() {
 	ev.Register(&ev.Check{
 		ID: "C07", Level: "exploration", Workers: 16, QuickSecs: 150, ThorSecs: 1500,
 		Rule: "every token string <= n tokens (n=4 quick / 5 thorough) and every single-byte corruption (12 hostile bytes at every position) and truncation of every JSON tree <= 3/4 nodes, through 27 entry points (Unmarshal into 15 destination types, Valid, Get with and without path, Skip, Preorder, ~45 ast accessors and mutators on the node built from the input, the stream decoder fed one byte per Read); " +
-			"nesting-depth grid {1,64,4095,4096,4097,65536,10^6,4*10^6} x {array, object, mixed} x {closed, unclosed} x entry points; encoder: cyclic pointer/map/slice/interface graphs, 100..100000-deep linked and nested values, every unsupported kind at depth 0-2, through Marshal / ConfigStd.Marshal / Encode with all-options; " +
+			"nesting-depth grid {1,64,4095,4096,4097,65536,10^6,4*10^6} x {array, object, mixed} x {closed, unclosed} x entry points; at the depth limit and one level either side of it, 15 innermost leaves (one per number / string / literal / container scanner path) x shapes x entry points; encoder: cyclic pointer/map/slice/interface graphs, 100..100000-deep linked and nested values, every unsupported kind at depth 0-2, through Marshal / ConfigStd.Marshal / Encode with all-options; " +
 			"error objects: Error()/Description() for ALL (Pos, len(Src)) in [-40,len+40] x [0,80] of decoder.SyntaxError, ast.SyntaxError, MismatchTypeError. Oracle: no panic, worker process survives (a death is attributed to the announced case and confirmed 5x in isolation), Decode consumes or errors, every returned error has a bounded message and a position inside the input. " +
 			"distinct_nontrivial = distinct (entry point, input) pairs that returned an error or a value",
 		Assume: []string{"a 10-minute per-worker watchdog stands in for 'hangs' (cases cost microseconds to seconds)", "Node.UnmarshalJSON is an adapter a decoder calls with a non-empty value: it is only exercised with non-empty input"},
@@ -409,7 +420,30 @@ func init() {
 								// stops at 65536 for this entry point (stated in the evidence rule)
 								continue
 							}
-							runDepth(c, r, shape, depth, closed, &entries[ei])
+							runDepth(c, r, shape, depth, closed, 0, &entries[ei])
+							r.Distinct++
+						}
+					}
+				}
+			}
+			// the depth limit itself: every leaf kind at the last permitted level and one level
+			// either side of it (the slot written at the limit is the last one of the state stack)
+			for _, shape := range []string{"array", "object", "mixed"} {
+				for _, depth := range []int{2047, 2048, 2049, 4094, 4095, 4096, 4097} {
+					if shape != "mixed" && depth < 4000 {
+						continue // 2 levels per repetition of the mixed shape put its limit at 2048
+					}
+					for leaf := 1; leaf < len(c07leaves); leaf++ {
+						unit++
+						if !c.Mine(unit) {
+							continue
+						}
+						if c.Expired() {
+							r.Exhaustive = false
+							return
+						}
+						for ei := range entries {
+							runDepth(c, r, shape, depth, true, leaf, &entries[ei])
 							r.Distinct++
 						}
 					}
@@ -516,8 +550,12 @@ func init() {
 				p := strings.Split(cs.Spec, "/")
 				var d int
 				fmt.Sscan(p[1], &d)
-				if e := find(cs.Entry); e != nil {
-					if v, dd := c07run(e, c07deep(p[0], d, p[2] == "true")); v != "" {
+				leaf := 0
+				if len(p) > 3 {
+					fmt.Sscan(p[3], &leaf)
+				}
+				if e := find(cs.Entry); e != nil && leaf < len(c07leaves) {
+					if v, dd := c07run(e, c07deepLeaf(p[0], d, p[2] == "true", c07leaves[leaf])); v != "" {
 						cls := "<=4096"
 						if d > 4096 {
 							cls = ">4096"
